@@ -369,7 +369,7 @@ def part_shipped(ctx, exe, work):
                                                        "errs": r["exp"]["errs"], "resolved_nodes": len(r["exp"]["nodes"])}})
                         break
     for need in ("calcopts", "single", "invalid", "undecl", "free", "list", "sample", "empty",
-                 "uattr", "battr", "emptyval", "biglist"):
+                 "uattr", "battr", "emptyval", "biglist", "multiword"):
         if not kinds.get(need):
             raise vlib.InfraError("scenario kind %s never generated" % need)
     ctx.extra["shipped_scenarios"] = kinds
@@ -825,6 +825,63 @@ def part_csg(ctx, exe, work):
     ctx.sample({"csg_property": recs[len(recs) // 3]})
 
 
+# ------------------------------------------------------------------------------------------
+# part 10: values with internal structure - every word of a multi-word value is checked
+# ------------------------------------------------------------------------------------------
+
+def part_words(ctx, exe, work):
+    mod = "MCWordsQuick" if ctx.quick else "MCWordsThorough"
+    res = vlib.tlc("options", mod, cfg=mod + ".cfg", timeout=3000)
+    vlib.tlc_must_hold(res, "OptWords: bracketed choice valid iff every word is declared")
+    ctx.add_tlc(mod, res)
+    head = [r for r in res.records if "desc" in r]
+    recs = [r for r in res.records if "words" in r]
+    if not head or not recs:
+        raise vlib.InfraError("no vectors from " + mod)
+    ddir = os.path.join(work, "words")
+    os.makedirs(os.path.join(ddir, "subpackages"), exist_ok=True)
+    with open(os.path.join(ddir, "t.xml"), "w") as f:
+        f.write(flat_to_xml(head[0]["desc"]))
+    items = [(i, ["process " + json.dumps({"dir": ddir + "/", "calc": "t", "user": r["user"], "via": "xml" if i % 2 else "api"})])
+             for i, r in enumerate(recs)]
+    results, crashes = vlib.run_items(exe, items, args=(work,))
+    seen = {"bad-first-valid-last": 0, "bad-middle": 0, "bad-last": 0, "all-valid-duplicate": 0, "empty": 0, "repeated-separator": 0}
+    for i, r in enumerate(recs):
+        ctx.count()
+        ctx.nontriv(("words", r["leaf"], json.dumps(r["words"]), r["style"]))
+        n, bad = len(r["words"]), list(r["badpos"])
+        kind = "bracketed" if r["leaf"] in ("m", "p") else "one-of"
+        pos = "none" if not bad else ("alone" if n == 1 else "first" if bad == [1] else "last" if bad == [n] else
+                                      "middle" if all(1 < b < n for b in bad) else "several")
+        if kind == "bracketed":
+            seen["bad-first-valid-last"] += 1 if (n >= 2 and 1 in bad and n not in bad and r["exp"]["errs"]) else 0
+            seen["bad-middle"] += 1 if pos == "middle" else 0
+            seen["bad-last"] += 1 if pos == "last" else 0
+            seen["all-valid-duplicate"] += 1 if (not bad and len(set(r["words"])) < n and not r["exp"]["errs"]) else 0
+            seen["empty"] += 1 if n == 0 else 0
+            seen["repeated-separator"] += 1 if (r["style"] == "commas" and n >= 2) else 0
+        rep = dict(r)
+        rep["kind"] = "tiny-words"
+        rep["desc"] = head[0]["desc"]
+        rep["pkgs"] = []
+        rep["p"] = {"leaf": r["leaf"]}
+        if i in crashes:
+            ctx.violation("ProcessUserInput:crash", "driver aborted: " + crashes[i], rep)
+            continue
+        v = judge_process(r["exp"], results[i][0])
+        if v:
+            what = v[0].split(":", 1)[1]
+            ctx.violation("ProcessUserInput:choice-words:%s:bad-%s:%s" % (kind, pos, what),
+                          "%s value %r (words %s, undeclared at %s): %s" % (kind, r["user"][2][2], r["words"], bad, v[1]), rep)
+    guard(ctx, "words: bracketed values with the undeclared word first and a declared word last, in the middle, last, "
+               "all-declared with a duplicate, empty, and repeated separators all occur %s" % seen,
+          all(x > 0 for x in seen.values()))
+    for r in recs:
+        if r["leaf"] == "m" and list(r["badpos"]) == [1] and len(r["words"]) == 2:
+            ctx.sample({"choice_words": {"value": r["user"][2][2], "expected_errs": r["exp"]["errs"]}})
+            break
+
+
 def replay_one(ctx, exe, work, obj):
     """--replay FILE: re-run exactly one recorded vector / history against the current tree"""
     r = obj["replay"]
@@ -928,7 +985,7 @@ def run(ctx):
             return
         import time
         for part in (part_tiny, part_shipped, part_proptree, part_xml, part_literals, part_session, part_load,
-                     part_bulk, part_csg):
+                     part_bulk, part_csg, part_words):
             t0 = time.time()
             part(ctx, exe, work)
             vlib.log("%s: %.1fs, %d vectors + %d histories so far, %d violation key(s)"
